@@ -4,6 +4,7 @@ import (
 	"bytes"
 	"context"
 	"fmt"
+	"os"
 	"strings"
 	"sync"
 	"sync/atomic"
@@ -1254,6 +1255,9 @@ func runScenarioRobust(s escn) *seqResult {
 		}
 		if first == nil {
 			first = res
+		}
+		if os.Getenv("VERIF_C18_DEBUG") != "" {
+			fmt.Printf("DEBUG attempt %d failed: violation=%q infra=%q\n%s\n", attempt, res.violation, res.infra, res.render())
 		}
 	}
 	return first
